@@ -51,11 +51,63 @@ static void exact_fit(coap_pdu_t *pdu) {
 static coap_context_t *g_ctx;
 static coap_session_t *g_sess;
 
-static void dump_b(FILE *o, const coap_pdu_t *pdu) {
+static coap_proto_t g_proto;
+
+static char *dump_str(const coap_pdu_t *pdu) {
+  char *buf = NULL;
+  size_t sz = 0;
+  FILE *m = open_memstream(&buf, &sz);
+  dump_pdu(m, pdu);
+  fclose(m);
+  return buf;
+}
+
+/* type and message id are not carried by the reliable framings */
+static const char *from_code(const char *d, coap_proto_t proto) {
+  const char *c;
+  if (proto == COAP_PROTO_UDP) return d;
+  c = strstr(d, " k=");
+  return c ? c : d;
+}
+
+/* serialise the PDU as it is now and parse the bytes into a fresh PDU; "rp==" when the fresh PDU
+ * shows the same message, otherwise what it shows (or REJECT).  Type and header size are put
+ * back (coap_pdu_encode_header forces CON on reliable transports). */
+static void step_reparse(FILE *o, coap_pdu_t *pdu) {
+  coap_pdu_type_t ty = pdu->type;
+  uint8_t hsz = pdu->hdr_size;
+  char *mine = dump_str(pdu);
+  size_t hs = coap_pdu_encode_header(pdu, g_proto);
+  if (!hs) {
+    fputs(" rp=NOHDR", o);
+  } else {
+    size_t total = hs + pdu->used_size;
+    uint8_t *copy = (uint8_t *)malloc(total);
+    coap_pdu_t *f = coap_pdu_init(0, 0, 0, total > 4 ? total : 4);
+    memcpy(copy, pdu->token - hs, total);
+    if (f && coap_pdu_parse(g_proto, copy, total, f)) {
+      char *theirs = dump_str(f);
+      int codes_equal = coap_pdu_get_code(f) == coap_pdu_get_code(pdu);
+      if (codes_equal && !strcmp(from_code(mine, g_proto), from_code(theirs, g_proto))) fputs(" rp==", o);
+      else fprintf(o, " rp=[%s]", theirs);
+      free(theirs);
+    } else {
+      fputs(" rp=[REJECT]", o);
+    }
+    if (f) coap_delete_pdu(f);
+    free(copy);
+  }
+  pdu->type = ty;
+  pdu->hdr_size = hsz;
+  free(mine);
+}
+
+static void dump_b(FILE *o, coap_pdu_t *pdu) {
   fputc('[', o);
   dump_pdu(o, pdu);
   fputs("] b=", o);
   show_bytes(o, pdu->token, pdu->used_size);
+  step_reparse(o, pdu);
 }
 
 static void do_dup(coap_pdu_t *pdu, int i) {
@@ -101,6 +153,7 @@ static void c04(void) {
   coap_pdu_t *pdu = NULL;
   if (vntok < 6) { puts("ERROR c04 args"); return; }
   proto = proto_of(vtok[1]);
+  g_proto = proto;
   amode = atoi(vtok[2]);
   mx = (size_t)atol(vtok[3]);
   i = 5;
